@@ -347,3 +347,52 @@ func check(c Case) (res vh.Result) {
 var prop = vh.Prop[Case]{ID: "C12", Gen: genCase, Check: check, Text: func(c *Case) *string { return &c.Src }}
 
 func TestC12(t *testing.T) { vh.Run(t, prop) }
+
+// canonical programs, one per construct of the core grammar, as token lists
+var enumPrograms = [][]string{
+	{"for", "i", "in", "a", "b", ";", "do", "echo", "$i", ";", "done"},
+	{"for", "x", "\n", "do", "echo", "$x", "\n", "done", ">f"},
+	{"while", "a", ";", "do", "b", "&&", "c", ";", "done"},
+	{"if", "a", ";", "then", "b", ";", "elif", "c", ";", "then", "d", "\n", "else", "e", ";", "fi"},
+	{"case", "$v", "in", "a)", "b", ";;", "(", "c|d)", ";;", "esac"},
+	{"f()", "{", "a", "|", "b", ";", "}", "\n", "(", "c", ")", "2>&1"},
+	{"!", "a", "||", "{", "b", "&", "}", "\n", "x=1", "y", "<f"},
+}
+
+// TestC12Enum applies EVERY single-token insertion and deletion (thorough:
+// replacement and swap as well) to the canonical programs: the random stage
+// reaches a given position/token pair only now and then.
+func TestC12Enum(t *testing.T) {
+	shard, n := vh.Shard()
+	k := 0
+	run := func(toks []string, mut string) {
+		k++
+		if k%n != shard {
+			return
+		}
+		vh.Each(t, prop, Case{Src: render(toks), Mut: mut})
+	}
+	for _, toks := range enumPrograms {
+		run(toks, "")
+		for i := 0; i <= len(toks); i++ {
+			if i < len(toks) {
+				run(append(append([]string{}, toks[:i]...), toks[i+1:]...), "delete "+toks[i])
+			}
+			for _, tk := range mutDict {
+				run(append(append(append([]string{}, toks[:i]...), tk), toks[i:]...), "insert "+tk)
+				if vh.Thorough() && i < len(toks) {
+					r := append([]string{}, toks...)
+					r[i] = tk
+					run(r, "replace "+toks[i]+" by "+tk)
+				}
+			}
+			if vh.Thorough() {
+				for j := i + 1; j < len(toks); j++ {
+					r := append([]string{}, toks...)
+					r[i], r[j] = r[j], r[i]
+					run(r, "swap")
+				}
+			}
+		}
+	}
+}
